@@ -7,17 +7,17 @@ CONSTANTS
  Cluster0 <- MC_Cluster0
  VTab <- MC_VTabA
  CRange <- MC_CRange
- Reqs <- MC_Reqs2
- Menu <- MC_MenuQ3
- MaxConns = 4
- MaxMoves = 0
+ Reqs <- MC_Reqs1
+ Menu <- MC_Menu1
+ MaxConns = 3
+ MaxMoves = 1
  MaxCancels = 0
  MaxCuts = 0
- MaxRefresh = 0
+ MaxRefresh = 1
  MaxExpire = 0
- MaxCloseIdle = 1
+ MaxCloseIdle = 0
  Hist = TRUE
- Bug = "none"
+ Bug = "splitWholeToFirst"
  AnyConnId = FALSE
  AtomicRelease = TRUE
  MoveKinds = {"leader", "add", "addr", "remove", "topic", "coord", "txn", "ctrlr"}
